@@ -72,7 +72,8 @@ impl Serializer for ValueSerializer {
     }
 
     fn serialize_u128(self, value: u128) -> Result<Value> {
-        self.serialize_i128(value as i128)
+        let value = i128::try_from(value).map_err(|_| Error::ser("u128 value out of range"))?;
+        self.serialize_i128(value)
     }
 
     fn serialize_f32(self, value: f32) -> Result<Value> {
